@@ -330,7 +330,8 @@ class ProgGen(object):
         """The single operand of an assignment / initialisation / return / yield: it may have side effects
         (a call of an impure function or of a closure), its own operands are pure."""
         r = self.r
-        if self.exns and not self.pure_mode and self.in_fun and isinstance(t, str) and t != UNIT and d > 0 and r.random() < 0.25:
+        if self.exns and not self.pure_mode and self.in_fun and self.in_gen is None and isinstance(t, str) and t != UNIT \
+                and d > 0 and r.random() < 0.25:      # (try inside a generator: known finding, optimiser "bad case")
             save_loop = self.in_loop
             self.in_try += 1
             self.in_loop = 0
@@ -843,10 +844,11 @@ STR_ESCAPES = ["\\", "\"", "_", "%", "'", "??/", "|", ";", "(", ")", "#", "~", "
                "<", ">", "=", "/*", "*/", "//", "\\n", "\\\\", "%d", "%s", " ", "a", "Z", "0", "--", "++", ","]
 
 
-def add_extremes(prog, seed):
+def add_extremes(prog, seed, huge=True):
     """A copy of prog with extra functions and file-level forms that carry extreme constants.  The added functions
     mention no file-level variable, so they can be moved into a library unit (render.lib_eligible).  All arithmetic
-    on the wide machine integers stays in range (no overflow)."""
+    on the wide machine integers stays in range (no overflow).  huge=False keeps every machine integer below 2^62 in
+    magnitude (wider than 31 bits, but still an immediate value of the compiler's own integer representation)."""
     import copy
     r = random.Random(seed)
     p = copy.deepcopy(prog)
@@ -866,8 +868,8 @@ def add_extremes(prog, seed):
 
     def wide():
         if r.random() < 0.6:
-            return r.choice(SI_WIDE)
-        n = r.getrandbits(r.randint(32, 63))
+            return r.choice(SI_WIDE if huge else [c for c in SI_WIDE if abs(c) < 2**62 - 1000])
+        n = r.getrandbits(r.randint(32, 63 if huge else 61))
         n = max(n, 2**31)
         return -n if r.random() < 0.4 else n
 
@@ -901,7 +903,7 @@ def add_extremes(prog, seed):
     add_top({"d": "var", "x": "xg1", "t": SI, "init": lit(SI, wide())})
     add_top({"d": "var", "x": "xg2", "t": BI, "init": lit(BI, big(300))})
     # the most negative machine integer has no literal: it is computed (and folded at -Q2 and above)
-    add_top({"d": "var", "x": "xg3", "t": SI, "init": prim("si.sub", lit(SI, -(2**63 - 1)), lit(SI, 1))})
+    add_top({"d": "var", "x": "xg3", "t": SI, "init": prim("si.sub", lit(SI, -(2**63 - 1) if huge else -(2**61 + 12345)), lit(SI, 1))})
     for c in calls:
         add_top({"d": "stmt", "x": {"e": "print", "args": [c, nl]}})
     add_top({"d": "stmt", "x": {"e": "print", "args": [var("xg1"), sp, var("xg2"), sp, var("xg3"), sp, lit(SI, wide()), sp,
